@@ -7,6 +7,8 @@ Documented semantics modelled here
   * `(defreader r ...)` puts r into the module's `_hy_reader_macros` and makes r usable by the reader that reads the
     rest of the stream; using `#r` before that is a syntax error "reader macro '#r' is not defined";
   * a reader macro whose body returns None produces no form;
+  * a top-level form is read completely before any of it is compiled, so a reader macro cannot be used in the same
+    top-level form that defines it (docs/macros.rst);
   * `(require m :readers [x y])` / `(require m :readers *)` bring in exactly the named (all) reader macros of m; an
     unknown name is a HyRequireError;
   * every module has its own `_hy_reader_macros`; every reader has its own table: a nested stream (another hy.eval of
@@ -24,10 +26,10 @@ REQ_SPECS = (("a",), ("c",), ("a", "c"), "*", ("zz",), ("a", "zz"))
 NESTED = ("def-use", "use", "req-use")
 
 ALPHABET = ([("def", r, k) for r in READERS for k in DEF_KINDS] + [("use", r) for r in READERS] + [("top", r) for r in READERS]
-            + [("req", s) for s in REQ_SPECS] + [("plain",)] + [("nested", w) for w in NESTED])
+            + [("req", s) for s in REQ_SPECS] + [("plain",)] + [("nested", w) for w in NESTED] + [("inform", "a")])
 # reduced alphabet for the longer exhaustive enumerations: one representative per behaviour
 REDUCED = [("def", "a", "val"), ("def", "a", "none"), ("def", "b", "wrap"), ("use", "a"), ("use", "b"), ("top", "a"),
-           ("req", ("a",)), ("req", "*"), ("req", ("a", "zz")), ("plain",), ("nested", "def-use"), ("nested", "use")]
+           ("req", ("a",)), ("req", "*"), ("req", ("a", "zz")), ("plain",), ("nested", "def-use"), ("nested", "use"), ("inform", "a")]
 
 M1_PRESET = {"a": ("val", "M1:a"), "c": ("val", "M1:c"), "n": ("none", "M1:n")}
 
@@ -67,6 +69,8 @@ def render(op, i, names):
         return f"(require {names['m1']} :readers {spec})"
     if k == "plain":
         return f"(setv p{i} {i})"
+    if k == "inform":        # definition and use in ONE top-level form (docs/macros.rst: the use cannot see the definition)
+        return f"(do (defreader {op[1]} {body_text('val', f'M0:{op[1]}:{i}')}) (setv s{i} [1 #{op[1]} 2]))"
     if k == "nested":
         inner = nested_inner(op[1], i, names["m1"])
         return (f"(eval-and-compile (setv n{i} (try (hy.eval (hy.read-many {json.dumps(inner)}) "
@@ -177,6 +181,16 @@ class Model:
             elif k == "plain":
                 out.forms.append(text)
                 out.values[f"p{i}"] = i
+            elif k == "inform":
+                r = op[1]
+                if r not in R:          # the whole form is read before its defreader is evaluated
+                    out.error, out.error_at, out.cls = ("LexException", f"reader macro '#{r}' is not defined"), j, "use before definition"
+                    return out
+                new = ("val", f"M0:{r}:{i}")
+                out.forms.append(f"(do (defreader {r} {body_text(*new)}) (setv s{i} [1 {expand(R[r], '2')}]))")
+                out.values[f"s{i}"] = [1] + expand_value(R[r], 2)      # the use is read with the OLD definition
+                M[r] = new
+                R[r] = new
             elif k == "nested":
                 out.forms.append(text)
                 w = op[1]
